@@ -143,7 +143,7 @@ func runBatchG(c *Ctx, dir string, cases []*progCase, tr transpileFn, gtr groupT
 	}
 	// raw programs (own `main`) go alone
 	if len(cases) == 1 && cases[0].P.RawFo != "" {
-		runRaw(c, dir, cases[0], tr)
+		runRaw(c, dir, cases[0], tr, gtr)
 		return
 	}
 	os.MkdirAll(dir, 0o755)
@@ -277,8 +277,12 @@ func goBuildFast(dir string) (string, bool) {
 }
 
 // runRaw: a program with its own `main` (hazard classes outside MiniFo), alone in a package.
-func runRaw(c *Ctx, dir string, pc *progCase, tr transpileFn) {
-	pc.GoSrc, pc.FcErr = tr(pc)
+func runRaw(c *Ctx, dir string, pc *progCase, tr transpileFn, gtr groupTranspileFn) {
+	if gtr != nil {
+		gtr(dir, []*progCase{pc}) // a group transpiler (tinyfo processes) fills GoSrc / FcErr itself
+	} else {
+		pc.GoSrc, pc.FcErr = tr(pc)
+	}
 	if pc.FcErr != "" {
 		return
 	}
